@@ -1,15 +1,19 @@
-(* V1Gen.v — model of the v1 CODE GENERATOR (dataclass_wizard/v1/loaders.py:111-860,
-   v1/decorators.py:67-179, v1/models.py TypeInfo).
+(* V1Gen.v — model of the v1 CODE GENERATOR (dataclass_wizard/v1/loaders.py:111-870,
+   v1/decorators.py:67-190, v1/models.py TypeInfo).
    `gen_ty t ti cn g` is `get_string_for_annotation(tp, extras)`: it returns the
    expression text (as an AST) that loads annotation t from the variable
    described by the TypeInfo `ti`, and threads the generator state (the
    recursion guard and the function table of the FunctionBuilder).
-   Faithful to the current /repo, including
-     - F18: a fixed-arity tuple REPLACES the parent index (`ti_elem`),
-     - inherited prefix in `ti_next` (a sequence in dict-key position reads k{i+1}),
-     - helper names that depend only on (class name, kind, field index / type name)
-       while the function table is keyed by name (last definition wins),
-     - the guard key of Literal compared with Python == (1 == True).
+   Models the REPAIRED generator of the current /repo:
+     - a fixed-arity tuple composes its element index with the parent index
+       (`index_into`: v1[0][1]) — repair of F18,
+     - the element TypeInfo of a sequence resets the prefix to 'v' — repair of F48,
+     - Literal / Union helpers are named _load_{cls}_{kind}_{field_i}_{len(guard)}
+       — repair of F22 — and keyed by (type, value) pairs — repair of F23,
+     - helper bodies use the reset TypeInfo (F7), `None` means NoneType (F49).
+   Still faithful to the open defect F9: NamedTuple / TypedDict / dataclass helpers are
+   named after the type's __name__, and the function table is keyed by name
+   (last definition wins).
    No proofs in this file. *)
 From DW Require Import PyStr V1Base.
 From Coq Require Import ZArith List Bool.
@@ -20,7 +24,7 @@ Inductive pfx := PV | PK.
 (* models.py:34-131 — the attributes that determine the generated text *)
 Record tinfo := {
   ti_i : nat;             (* v{i} *)
-  ti_ix : option idx;     (* v{i}[ix] *)
+  ti_ix : list idx;       (* v{i}[ix0][ix1]... *)
   ti_p : pfx;             (* 'v' or 'k' *)
   ti_fi : nat;            (* field_i *)
   ti_opt : bool           (* in_optional *)
@@ -59,43 +63,36 @@ Inductive fbody :=
    Each function remembers (ghost) the type it was generated for. *)
 Record gstate := {
   g_guard : list (ty * pstr);
-  g_fns : list (pstr * (ty * fbody));
-  g_alias : bool     (* ghost: some guard lookup hit an entry stored for a DIFFERENT type *)
+  g_fns : list (pstr * (ty * fbody))
 }.
 
 (* TypeInfo.v() *)
 Definition tiv (ti : tinfo) : expr :=
-  match ti_ix ti with
-  | None => EVar (ti_p ti) (ti_i ti)
-  | Some ix => EIdx (EVar (ti_p ti) (ti_i ti)) ix
-  end.
+  fold_left EIdx (ti_ix ti) (EVar (ti_p ti) (ti_i ti)).
 
-(* tp.replace(origin=elem, i=i+1, index=None): prefix is inherited *)
+(* tp.replace(origin=elem, i=i+1, index=None, prefix='v') *)
 Definition ti_next (ti : tinfo) : tinfo :=
-  {| ti_i := Datatypes.S (ti_i ti); ti_ix := None; ti_p := ti_p ti; ti_fi := ti_fi ti; ti_opt := false |}.
-(* tp.replace(origin=arg, index=k): the index is REPLACED (F18) *)
+  {| ti_i := Datatypes.S (ti_i ti); ti_ix := []; ti_p := PV; ti_fi := ti_fi ti; ti_opt := false |}.
+(* tp.replace(origin=arg, index=tp.index_into(k)): the parent index is kept *)
 Definition ti_elem (ti : tinfo) (ix : idx) : tinfo :=
-  {| ti_i := ti_i ti; ti_ix := Some ix; ti_p := ti_p ti; ti_fi := ti_fi ti; ti_opt := false |}.
+  {| ti_i := ti_i ti; ti_ix := ti_ix ti ++ [ix]; ti_p := ti_p ti; ti_fi := ti_fi ti; ti_opt := false |}.
 Definition ti_key (ti : tinfo) : tinfo :=
-  {| ti_i := Datatypes.S (ti_i ti); ti_ix := None; ti_p := PK; ti_fi := ti_fi ti; ti_opt := false |}.
+  {| ti_i := Datatypes.S (ti_i ti); ti_ix := []; ti_p := PK; ti_fi := ti_fi ti; ti_opt := false |}.
 Definition ti_val (ti : tinfo) : tinfo :=
-  {| ti_i := Datatypes.S (ti_i ti); ti_ix := None; ti_p := PV; ti_fi := ti_fi ti; ti_opt := false |}.
+  {| ti_i := Datatypes.S (ti_i ti); ti_ix := []; ti_p := PV; ti_fi := ti_fi ti; ti_opt := false |}.
 Definition ti_inopt (ti : tinfo) : tinfo :=
   {| ti_i := ti_i ti; ti_ix := ti_ix ti; ti_p := ti_p ti; ti_fi := ti_fi ti; ti_opt := true |}.
 (* the RESET TypeInfo of a helper body (decorators.py:146, the F7 repair) *)
 Definition ti_fn (fi : nat) (opt : bool) : tinfo :=
-  {| ti_i := 1; ti_ix := None; ti_p := PV; ti_fi := fi; ti_opt := opt |}.
+  {| ti_i := 1; ti_ix := []; ti_p := PV; ti_fi := fi; ti_opt := opt |}.
 Definition ti_fn2 (fi : nat) : tinfo :=
-  {| ti_i := 2; ti_ix := None; ti_p := PV; ti_fi := fi; ti_opt := false |}.
+  {| ti_i := 2; ti_ix := []; ti_p := PV; ti_fi := fi; ti_opt := false |}.
 Definition ti_field (fi : nat) : tinfo := ti_fn fi false.
 
 (* ---- guard and function table ------------------------------------------------- *)
-(* recursion_guard key: the class object (non-generic) or the args tuple (generic) *)
-Definition key_eqb (a b : ty) : bool :=
-  match a, b with
-  | TLit vs, TLit vs' => list_eqb py_scalar_eq vs vs'
-  | _, _ => ty_eqb a b
-  end.
+(* recursion_guard key: the class object (non-generic) or the tuple of (type, value)
+   pairs of the args (generic): equal keys are equal types *)
+Definition key_eqb (a b : ty) : bool := ty_eqb a b.
 
 Fixpoint guard_lookup (gd : list (ty * pstr)) (k : ty) : option (ty * pstr) :=
   match gd with
@@ -117,17 +114,15 @@ Fixpoint fn_set {A} (fns : list (pstr * A)) (f : pstr) (b : A) : list (pstr * A)
   end.
 
 Definition add_guard (g : gstate) (k : ty) (f : pstr) : gstate :=
-  {| g_guard := g_guard g ++ [(k, f)]; g_fns := g_fns g; g_alias := g_alias g |}.
+  {| g_guard := g_guard g ++ [(k, f)]; g_fns := g_fns g |}.
 Definition set_fn (g : gstate) (f : pstr) (k : ty) (b : fbody) : gstate :=
-  {| g_guard := g_guard g; g_fns := fn_set (g_fns g) f (k, b); g_alias := g_alias g |}.
-Definition note_alias (g : gstate) (exact : bool) : gstate :=
-  {| g_guard := g_guard g; g_fns := g_fns g; g_alias := g_alias g || negb exact |}.
+  {| g_guard := g_guard g; g_fns := fn_set (g_fns g) f (k, b) |}.
 
 (* decorators.py:117-160 *)
 Definition with_helper (key : ty) (name : pstr) (ti : tinfo) (g : gstate)
            (body : gstate -> result (fbody * gstate)) : result (expr * gstate) :=
   match guard_lookup (g_guard g) key with
-  | Some (k', f) => Ok (ECall f (tiv ti), note_alias g (ty_eqb key k'))
+  | Some (_, f) => Ok (ECall f (tiv ti), g)
   | None =>
       match body (add_guard g key name) with
       | Ok (b, g2) => Ok (ECall name (tiv ti), set_fn g2 name key b)
@@ -137,8 +132,9 @@ Definition with_helper (key : ty) (name : pstr) (ti : tinfo) (g : gstate)
 
 (* function names *)
 Definition dc_name (cn : pstr) : pstr := S "__dataclass_wizard_from_dict_" ++ cn ++ S "__".
-Definition generic_name (cn : pstr) (kind : string) (fi : nat) : pstr :=
-  S "_load_" ++ cn ++ S "_" ++ S kind ++ S "_" ++ show_nat fi.
+(* _load_{cls_name}_{kind}_{field_i}_{len(recursion_guard)} *)
+Definition generic_name (cn : pstr) (kind : string) (fi : nat) (n : nat) : pstr :=
+  S "_load_" ++ cn ++ S "_" ++ S kind ++ S "_" ++ show_nat fi ++ S "_" ++ show_nat n.
 Definition named_name (cn : pstr) (kind : string) (n : pstr) : pstr :=
   S "_load_" ++ cn ++ S "_" ++ S kind ++ S "_" ++ n.
 
@@ -211,10 +207,10 @@ Section Gen.
         | Err e => Err e
         end
     | TLit vs =>
-        with_helper t (generic_name cn "literal" (ti_fi ti)) ti g (fun g1 => Ok (FLit vs, g1))
+        with_helper t (generic_name cn "literal" (ti_fi ti) (List.length (g_guard g))) ti g (fun g1 => Ok (FLit vs, g1))
     | TUnion ts =>
         (* each alternative from a FRESH TypeInfo(field_i=i), in_optional = None in args *)
-        with_helper t (generic_name cn "union" (ti_fi ti)) ti g
+        with_helper t (generic_name cn "union" (ti_fi ti) (List.length (g_guard g))) ti g
           (fun g1 => match gen_list MSame ts 0 (ti_fn (ti_fi ti) (has_none ts)) cn g1 with
                      | Ok (es, g2) => Ok (FUnion (mk_alts ts es), g2)
                      | Err e => Err e
@@ -297,7 +293,7 @@ Definition gen_main (ct : ctable) (n : nat) (c : cid) : result (pstr * gstate) :
   | None => bare "TypeError"
   | Some cd =>
       let name := dc_name (c_name cd) in
-      let g0 := {| g_guard := [(TData c, name)]; g_fns := []; g_alias := false |} in
+      let g0 := {| g_guard := [(TData c, name)]; g_fns := [] |} in
       match gen_cls_n ct n c g0 with
       | Ok (b, g1) => Ok (name, set_fn g1 name (TData c) b)
       | Err e => Err e
@@ -323,44 +319,6 @@ with supported_l (ct : ctable) (ts : tys) : bool :=
 Definition supported_ct (ct : ctable) : bool :=
   forallb (fun cd => forallb (fun f => supported ct (f_ty f)) (c_fields cd)) ct.
 
-(* ---- region predicates --------------------------------------------------------- *)
-(* F18: no fixed-arity tuple is generated from a TypeInfo that carries an index.
-   `ixd` = the position is read through an index (v[k]). *)
-Fixpoint f18_free (t : ty) (ixd : bool) : bool :=
-  match t with
-  | TLeaf _ | TLit _ | TData _ => true
-  | TSeq _ t' => f18_free t' false
-  | TTuple ts => negb ixd && f18_free_l ts true
-  | TDict _ k v => f18_free k false && f18_free v false
-  | TOpt t' => f18_free t' ixd
-  | TUnion ts => f18_free_l ts false
-  | TNamed _ fs => f18_free_l fs true
-  | TTyped _ r o => f18_free_l r true && f18_free_l o false
-  end
-with f18_free_l (ts : tys) (ixd : bool) : bool :=
-  match ts with
-  | TNil => true
-  | TCons _ t r => f18_free t ixd && f18_free_l r ixd
-  end.
-
-(* a sequence generated under prefix 'k' reads k{i+1} while the comprehension binds v{i+1} *)
-Fixpoint keyseq_free (t : ty) (inkey : bool) : bool :=
-  match t with
-  | TLeaf _ | TLit _ | TData _ => true
-  | TSeq _ t' => negb inkey && keyseq_free t' inkey
-  | TTuple ts => keyseq_free_l ts inkey
-  | TDict _ k v => keyseq_free k true && keyseq_free v false
-  | TOpt t' => keyseq_free t' inkey
-  | TUnion ts => keyseq_free_l ts false
-  | TNamed _ fs => keyseq_free_l fs false
-  | TTyped _ r o => keyseq_free_l r false && keyseq_free_l o false
-  end
-with keyseq_free_l (ts : tys) (inkey : bool) : bool :=
-  match ts with
-  | TNil => true
-  | TCons _ t r => keyseq_free t inkey && keyseq_free_l r inkey
-  end.
-
 (* helper-free fragment: no annotation that is compiled into a separate function *)
 Fixpoint helper_free (t : ty) : bool :=
   match t with
@@ -376,26 +334,17 @@ with helper_free_l (ts : tys) : bool :=
   | TCons _ t r => helper_free t && helper_free_l r
   end.
 
-(* coherence of a final generator state: no guard lookup was answered by an entry
-   stored for a different type (F23), and every guard entry names a function
-   that was generated for exactly that type (false under F9/F22 name collisions) *)
+(* coherence of a final generator state: every guard entry names a function that was
+   generated for exactly that type.  It can only fail when two DIFFERENT helper-compiled
+   types get the same function name — the open defect F9 (NamedTuple / TypedDict /
+   dataclass helpers are named after __name__). *)
 Definition coherent (g : gstate) : bool :=
-  negb (g_alias g) &&
   forallb (fun kf => match fn_lookup (g_fns g) (snd kf) with
                      | Some (k', _) => ty_eqb (fst kf) k'
                      | None => false
                      end) (g_guard g).
 
-(* positions: every helper-compiled annotation met during generation is free of
-   the F18 / key-sequence shapes (its components are generated from the reset TypeInfo) *)
-Definition key_region (ct : ctable) (k : ty) : bool :=
-  match k with
-  | TData c =>
-      match nth_error ct c with
-      | Some cd => forallb (fun f => f18_free (f_ty f) false && keyseq_free (f_ty f) false) (c_fields cd)
-      | None => false
-      end
-  | _ => f18_free k false && keyseq_free k false
-  end.
-Definition region_ok (ct : ctable) (g : gstate) : bool :=
-  forallb (fun kf => key_region ct (fst kf)) (g_guard g).
+(* a simpler sufficient check: the function names in the guard are pairwise distinct *)
+Fixpoint distinct_names (l : list pstr) : bool :=
+  match l with [] => true | x :: r => negb (mem_str x r) && distinct_names r end.
+Definition names_distinct (g : gstate) : bool := distinct_names (map snd (g_guard g)).
